@@ -36,7 +36,7 @@ Lemma function_analyser_visitors :
    "AugAssign"; "Call"; "ClassAssign"; "ClassDef"; "Delete"; "DictComp"; "ExceptHandler"; "For"; "FunctionDef"; "GeneratorExp";
    "Global"; "Import"; "ImportFrom"; "Lambda"; "LambdaAssign"; "ListComp"; "Name"; "NamedExpr"; "NamedTupleAssign";
    "Nonlocal"; "Return"; "ReturnValue"; "SetComp"; "Starred"; "Subscript"; "With";
-   "call_to_target_with_custom_analyser"; "compound_name"; "comprehension"].
+   "call_to_target_with_custom_analyser"; "compound_name"; "comprehension"; "slices_passed_over_by_name"].
 Proof. reflexivity. Qed.
 Lemma root_context_visitors :
   visitors_RootContextBuilder =
